@@ -50,7 +50,7 @@ Print Assumptions C11_response_accepted_iff.
 Theorem C11_transport_accepted_iff : forall st e x sl s,
   elem_accepts st e = Some (x, sl, s) <->
   exists p sid, t_owner e = Some (p, sid) /\ find_peer st p = Some x /\ slot_of x sid = Some (sl, s) /\
-                t_tag e = true /\ accept (s_filter s) (t_ctr e) RejectAfterMessages = true.
+                s_expired s = false /\ t_tag e = true /\ accept (s_filter s) (t_ctr e) RejectAfterMessages = true.
 Proof. exact elem_accepts_iff. Qed.
 Print Assumptions C11_transport_accepted_iff.
 
@@ -167,6 +167,13 @@ Theorem C11_crossed_handshake_discards_current : forall st now m sid x s0 s1 e,
   elem_accepts (fst (step st (EResp now m sid))) e = None.
 Proof. exact crossed_handshake_discards_current. Qed.
 Print Assumptions C11_crossed_handshake_discards_current.
+
+(* Keypairs older than RejectAfterTime (180 s), whichever side made them: nothing is accepted under them. *)
+Theorem C11_expired_keys_accept_nothing : forall st p x e,
+  find_peer st p = Some x -> (exists sid, t_owner e = Some (p, sid)) ->
+  elem_accepts (fst (step st (EAgeKeys p))) e = None.
+Proof. exact expired_keys_accept_nothing. Qed.
+Print Assumptions C11_expired_keys_accept_nothing.
 
 (* Non-vacuity: peer 2 configured at (1,5555).  A fresh initiation from (4,5555) moves it and is
    answered there; its replay from (7,1) does nothing; a batch [bad tag from (5,1); counter 0 from
